@@ -28,7 +28,7 @@ MANIFEST = {
             "glue slices exactly the decoded prefix and returns the remainder starting after the sentinel (offset identity proved "
             "linearly). Right level: the 254-run arm is never executed by tests but is read here like any other path.",
     "note": "Trusted: cobs 0.2.3 EncoderState/decode_in_place(_report) behave per their documentation; frame-shape theorems of COBS itself are not re-proved.",
-    "technique": "static analysis: canonical per-path summaries + payload-flow check + linear offset identity",
+    "technique": "static analysis: semantic MIR summaries vs specifications (hand-written for the three encoder arms) + linear offset identity",
 }
 
 
